@@ -282,6 +282,11 @@ func (filter *CuckooFilterRedis) Import(data []byte, withNewRedisKey bool) error
 }
 
 func (aFilter CuckooFilterRedis) Equals(bFilter CuckooFilterRedis) (bool, error) {
+	if aFilter.size != bFilter.size || aFilter.bucketSize != bFilter.bucketSize ||
+		aFilter.fingerPrintLength != bFilter.fingerPrintLength || aFilter.retries != bFilter.retries ||
+		aFilter.Length() != bFilter.Length() || len(aFilter.buckets) != len(bFilter.buckets) {
+		return false, nil
+	}
 	count := 0
 	result := true
 	for result && count < len(aFilter.buckets) {
